@@ -369,21 +369,25 @@ def check_types(schema: Type[MetadataSchema], *, recheck: bool = False):
     if schema is MetadataSchema or schema.__types_checked__ and not recheck:
         return
     schema.__types_checked__ = True
+    try:
+        # recursively check compositional and inheritance dependencies
+        for b in schema.__bases__:
+            if issubclass(b, MetadataSchema):
+                check_types(b, recheck=recheck)
 
-    # recursively check compositional and inheritance dependencies
-    for b in schema.__bases__:
-        if issubclass(b, MetadataSchema):
-            check_types(b, recheck=recheck)
+        schemaFields = cast(Any, schema.Fields)
+        for f in schemaFields:  # type: ignore
+            for sname in schemaFields[f].schemas:
+                s = schemaFields[f].schemas[sname]
+                if s is not schema and issubclass(s, MetadataSchema):
+                    check_types(s, recheck=recheck)
 
-    schemaFields = cast(Any, schema.Fields)
-    for f in schemaFields:  # type: ignore
-        for sname in schemaFields[f].schemas:
-            s = schemaFields[f].schemas[sname]
-            if s is not schema and issubclass(s, MetadataSchema):
-                check_types(s, recheck=recheck)
-
-    check_allowed_types(schema)
-    check_overrides(schema)
+        check_allowed_types(schema)
+        check_overrides(schema)
+    except Exception:
+        # a refused schema must be refused again when it is checked the next time
+        schema.__types_checked__ = False
+        raise
 
 
 def check_allowed_types(schema: Type[MetadataSchema]):
